@@ -19,9 +19,9 @@ import (
 
 // The client methods build the request payload (function id + arguments) and select the answer by its
 // constructor id inside their bodies; neither is reachable through an exported function without a
-// network peer. Until the in-process ADNL server (internal/adnlsrv) drives the methods end to end
-// (TODO: call every (*Client).LiteServer* method against it and compare the received query bytes with
-// the reference request bytes), the ids compiled into each method are read from the source of the very
+// network peer. c10/wire (wire_test.go) calls drawn methods against the in-process ADNL server
+// (internal/adnlsrv) and compares the frames it receives with the reference bytes; independently of
+// that sample, for EVERY function the ids compiled into each method are read from the source of the very
 // tree under test ($VERIF_REPO/liteclient/generated.go) and the payload is rebuilt exactly the way the
 // method does it: tl.Marshal of struct{tl.SumType; Req <Request> `tlSumType:"<id>"`}.
 
